@@ -19,8 +19,8 @@ def _alt_algorithms():
         except Exception: pass
     return [a for a in out if a.islower()][:2]
 KMS = KMS + [(a, {}) for a in _alt_algorithms()]
-VALS = ['1', '2.5', "'a'", 'None', '(1, 2)', '-7', "'x y'", '0.1', '[1, 2]', 'True', '10**12', "'z'"]
-VALS2 = [v for v in VALS if v != '[1, 2]']
+VALS = ['1', '2.5', "'a'", 'None', '(1, 2)', '-7', "'x y'", '0.1', '[1, 2]', 'True', '10**12', "'z'", "'L' * 250"]
+VALS2 = [v for v in VALS if v not in ('[1, 2]', "'L' * 250")]        # (a 250-character argument makes keys no file name can hold)
 SEEDS = ['0', '1', '4242', 'random']
 NITEMS = {'quick': 40, 'thorough': 400}
 NSESS = {'quick': 18, 'thorough': 150}
